@@ -5,7 +5,7 @@ import ast
 
 from .. import AnalysisError
 from ..program import norm, walk_local, enclosing_stmt
-from . import fa
+from . import fa, fvaform
 from .common import check_none_defaults
 
 EXPLANATION = (
@@ -78,7 +78,12 @@ def run(ctx) -> None:
     ctx.rule("C05.chunk", "T6: chunk size >= 1 (clamp dominates, processes > 1 guards)", floor=1)
     ctx.rule("C05.magnitude", "T5: cut-offs are applied to magnitudes", floor=5)
     ctx.rule("C05.nonedefault", "T5: optional arguments are defaulted only when None", floor=3)
+    ctx.rule("C05.formulation", "formulation: every FVA solve is the documented problem (oracle evaluation over the LP model)", floor=7)
     fa.check_fva_step(ctx, "C05.step")
+    try:
+        fvaform.check_fva_formulation(ctx, "C05.formulation")
+    except AnalysisError as exc:
+        ctx.defer(str(exc))
     fa.check_orientation(ctx, "C05.orient", ORIENT_SITES)
     fa.check_pin_unconditional(ctx, "C05.pin")
     fa.check_capture(ctx, "C05.capture", CAPTURE_SITES)
